@@ -378,32 +378,62 @@ def ag3(proj, rep):
             else:
                 rep.violation('AG3', f'{g.qual}[{mk}]', f'`{ast.unparse(at)}`: at cos(beta)={sgn:+d}, sin(beta)=0 the arguments are not (sin({name}), cos({name})) of the '
                               f'matrix built by angle_to_so3: the recovered combination has the wrong sign / entry', m, at)
-            # stored combination
+            # stored combination: alpha = ca * T, gamma = cg * T with T the recovered angle (arctan2 % 2pi); the name holding it may be scaled
             n += 1
+            from fractions import Fraction
+
+            def lin(e, tname):
+                """coefficient c with e == c * <tname> (None if not of that form)"""
+                if isinstance(e, ast.Name) and e.id == tname:
+                    return Fraction(1)
+                if isinstance(e, ast.Constant) and e.value == 0:
+                    return Fraction(0)
+                if isinstance(e, ast.UnaryOp) and isinstance(e.op, ast.USub):
+                    c = lin(e.operand, tname)
+                    return None if c is None else -c
+                if isinstance(e, ast.BinOp) and isinstance(e.op, ast.Div) and isinstance(e.right, ast.Constant) and isinstance(e.right.value, (int, float)) and e.right.value:
+                    c = lin(e.left, tname)
+                    return None if c is None else c / Fraction(e.right.value)
+                if isinstance(e, ast.BinOp) and isinstance(e.op, ast.Mult):
+                    for a, b in ((e.left, e.right), (e.right, e.left)):
+                        if isinstance(a, ast.Constant) and isinstance(a.value, (int, float)):
+                            c = lin(b, tname)
+                            return None if c is None else c * Fraction(a.value).limit_denominator(1 << 20)
+                return None
+            # the statement that holds the arctan2 and the scale it applies
+            hold = at
+            while not isinstance(hold, ast.stmt):
+                hold = hold._parent
+            scale = None
+            tname = None
+            if isinstance(hold, ast.Assign) and isinstance(hold.targets[0], ast.Name):
+                tname = hold.targets[0].id
+                # replace the `arctan2(..) % (2*pi)` subtree by a marker name and read the linear coefficient
+                class Mark(ast.NodeTransformer):
+                    def visit_BinOp(self, node):
+                        if isinstance(node.op, ast.Mod) and 'arctan2' in ast.unparse(node.left):
+                            return ast.Name(id='__T__', ctx=ast.Load())
+                        return self.generic_visit(node)
+
+                    def visit_Call(self, node):
+                        if ast.unparse(node.func).endswith('arctan2'):
+                            return ast.Name(id='__T__', ctx=ast.Load())
+                        return self.generic_visit(node)
+                marked = Mark().visit(ast.parse(ast.unparse(hold.value), mode='eval').body)
+                scale = lin(marked, '__T__')
             coef = {}
-            tvar = None
             for s in blk.body:
                 if isinstance(s, ast.Assign) and isinstance(s.targets[0], ast.Subscript) and isinstance(s.targets[0].value, ast.Name) \
-                        and s.targets[0].value.id in ('alpha', 'gamma'):
-                    t = ast.unparse(s.value).replace(' ', '')
-                    from fractions import Fraction
-                    if t == 'tmp0':
-                        coef[s.targets[0].value.id] = Fraction(1)
-                    elif t == 'tmp0/2':
-                        coef[s.targets[0].value.id] = Fraction(1, 2)
-                    elif t == '0':
-                        coef[s.targets[0].value.id] = Fraction(0)
-                    elif t == '-tmp0':
-                        coef[s.targets[0].value.id] = Fraction(-1)
-                    elif t == '-tmp0/2':
-                        coef[s.targets[0].value.id] = Fraction(-1, 2)
-            if set(coef) != {'alpha', 'gamma'}:
-                rep.undecided('AG3', f'{g.qual}[{mk} store]', 'stored angles not recognised', m, blk)
+                        and s.targets[0].value.id in ('alpha', 'gamma') and tname is not None:
+                    coef[s.targets[0].value.id] = lin(s.value, tname)
+            if scale is None or set(coef) != {'alpha', 'gamma'} or None in coef.values():
+                rep.undecided('AG3', f'{g.qual}[{mk} store]', 'stored angles are not recognisably multiples of the recovered angle', m, blk)
                 n -= 1
-            elif coef['alpha'] + sgn * coef['gamma'] == 1:
+            elif (coef['alpha'] + sgn * coef['gamma']) * scale == 1:
                 rep.ok('AG3', f'{g.qual}[{mk} store]', f'stored angles satisfy {name} = recovered angle', m, blk)
             else:
-                rep.violation('AG3', f'{g.qual}[{mk} store]', f'stored alpha = {coef["alpha"]}*t, gamma = {coef["gamma"]}*t do not give {name} = t: the rebuilt matrix differs', m, blk)
+                rep.violation('AG3', f'{g.qual}[{mk} store]', f'stored alpha = {coef["alpha"] * scale}*t, gamma = {coef["gamma"] * scale}*t do not give {name} = t: the rebuilt '
+                              f'matrix differs', m, blk)
         elif mk is not None:
             # generic branch: pairs (arccos argument, sign-test entry) followed by a store into gamma / alpha
             pend = {}
